@@ -101,21 +101,22 @@ func resumeThread(L *LState, th *LState, viaWrap bool) int {
 	th.wrapped = viaWrap
 	th.Parent = L
 	L.G.CurrentThread = th
-	if !th.isStarted() {
-		cf := th.stack.Last()
-		th.currentFrame = cf
-		th.SetTop(0)
-		nargs := L.GetTop() - 1
-		L.XMoveTo(th, nargs)
-		cf.NArgs = nargs
-		th.initCallFrame(cf)
-		th.Panic = panicWithoutTraceback
-	} else {
-		nargs := L.GetTop() - 1
-		L.XMoveTo(th, nargs)
-	}
-	top := L.GetTop()
-	threadRun(th)
+	nargs := L.GetTop() - 1
+	top := L.GetTop() - nargs
+	threadRun(th, func() {
+		defer L.SetTop(top) // also when only a part of the values fitted
+		if !th.isStarted() {
+			cf := th.stack.Last()
+			th.currentFrame = cf
+			th.Panic = panicWithoutTraceback
+			th.SetTop(0)
+			L.XMoveTo(th, nargs)
+			cf.NArgs = nargs
+			th.initCallFrame(cf)
+		} else {
+			L.XMoveTo(th, nargs)
+		}
+	})
 	return L.GetTop() - top
 }
 
